@@ -241,6 +241,10 @@ class NotConst(Exception):
     pass
 
 
+class FoldStructError(NotConst):
+    """the folded expression raises struct.error"""
+
+
 def const(node, env=None):
     """Fold a constant expression (ints, bytes, str, tuples, lists, dicts, simple calls)."""
     env = env or {}
@@ -336,7 +340,7 @@ def const(node, env=None):
         args = [const(a, env) for a in node.args]
         table = {'range': range, 'bytearray': bytearray, 'bytes': bytes, 'len': len, 'int': int, 'tuple': tuple,
                  'list': list, 'min': min, 'max': max, 'sum': sum, 'frozenset': frozenset, 'set': set, 'sorted': sorted, 'slice': slice, 'divmod': divmod,
-                 'bool': bool, 'pow': pow, 'abs': abs, 'type': type}
+                 'bool': bool, 'pow': pow, 'abs': abs, 'type': type, 'str': str, 'repr': repr}
         if fn in table:
             return table[fn](*args)
     if isinstance(node, ast.Call) and norm(node.func) in ('unpack_from', 'struct.unpack_from') and not node.keywords and len(node.args) in (2, 3):
@@ -345,7 +349,21 @@ def const(node, env=None):
         try:
             return _struct.unpack_from(args[0], bytes(args[1]), *(args[2:]))
         except _struct.error as e:
-            raise NotConst('struct.error %s' % e)
+            raise FoldStructError('struct.error %s' % e)
+    if isinstance(node, ast.Call) and norm(node.func) in ('struct.unpack', 'struct.pack') and not node.keywords and node.args:
+        import struct as _struct
+        args = [const(a, env) for a in node.args]
+        try:
+            if norm(node.func) == 'struct.pack':
+                return _struct.pack(*args)
+            return _struct.unpack(args[0], bytes(args[1]))
+        except _struct.error as e:
+            raise FoldStructError('struct.error %s' % e)
+    if isinstance(node, ast.Call) and norm(node.func) in ('hexlify', 'binascii.hexlify') and not node.keywords and len(node.args) == 1:
+        import binascii as _binascii
+        return _binascii.hexlify(bytes(const(node.args[0], env)))
+    if isinstance(node, ast.Call) and norm(node.func) == 'int.from_bytes' and not node.keywords and len(node.args) == 2:
+        return int.from_bytes(bytes(const(node.args[0], env)), const(node.args[1], env))
     if isinstance(node, ast.Call) and norm(node.func) in ('pack', 'struct.pack', 'unpack', 'struct.unpack') and not node.keywords:
         import struct as _struct
         args = [const(a, env) for a in node.args]
@@ -394,6 +412,25 @@ def fold_block(stmts, env):
             continue
         if isinstance(st, ast.Expr) and isinstance(st.value, ast.Call) and norm(st.value.func) in env.get('__calls__', ()):
             const(st.value, env)
+            continue
+        if isinstance(st, ast.Try) and not st.finalbody and not st.orelse:
+            # handlers for struct.error only: the one exception the evaluator itself can meet
+            hs = [h for h in st.handlers if h.type is not None and norm(h.type) == 'struct.error']
+            try:
+                r = fold_block(st.body, env)
+            except FoldStructError as e:
+                if not hs:
+                    raise
+                if hs[0].name:
+                    env[hs[0].name] = str(e)
+                r = fold_block(hs[0].body, env)
+            else:
+                if r[0] == 'raise' and r[1].startswith('struct.error(') and hs:
+                    if hs[0].name:
+                        env[hs[0].name] = 'struct.error'
+                    r = fold_block(hs[0].body, env)
+            if r[0] != 'fall':
+                return r
             continue
         if isinstance(st, ast.While) and not st.orelse:
             if any(isinstance(x, (ast.Break, ast.Continue)) for x in ast.walk(st)):
